@@ -99,14 +99,14 @@ impl Property for C17 {
     fn cases(&self, cfg: &Cfg) -> u64 {
         // directed grid (limits x sizes x sources x mime) + error codes + random
         let grid: usize = LIMITS.iter().map(|&l| sizes(l).len() * 2 * 2).sum();
-        (grid + CODES.len() * 4 + 8) as u64 * cfg.tier.pick(1, 6) + cfg.tier.pick(100, 20_000)
+        (grid + CODES.len() * 4 + 8) as u64 * cfg.tier.pick(2, 6) + cfg.tier.pick(1_000, 20_000)
     }
     fn run_case(&self, cfg: &Cfg, i: u64, acc: &mut Acc) {
         let mut r = Rng::keyed(&[cfg.seed, 17, i]);
         let grid: Vec<(usize, usize, bool, bool)> = LIMITS.iter().flat_map(|&l| sizes(l).into_iter().flat_map(move |s| [(l, s, true, true), (l, s, true, false), (l, s, false, true), (l, s, false, false)])).collect();
         let specials = CODES.len() * 4 + 8;
         let per_round = grid.len() + specials;
-        let reps = cfg.tier.pick(1, 6) as usize;
+        let reps = cfg.tier.pick(2, 6) as usize;
         let uri = URIS[(i % URIS.len() as u64) as usize];
         let mut art = ArtStore { embedded: None, cover: None, limit: 64, readpicture_supported: true, embedded_ack: 0, cover_ack: 0 };
         let k = (i as usize) % per_round;
